@@ -68,7 +68,39 @@ def _poly_pair_rule(op, args, impl):
 
 _RES_GEN = "all pairs of integer polynomials with <= 3 (thorough 4) coefficients in a small range; seeded random pairs of degree <= 12 with coefficients up to 2^64: common factors h*f1, h*g1 (deg h <= 6), f = g, f | g, degree gaps delta >= 2 in both orders, non-primitive and negative leading coefficients, sparse, constants, zero; un-normalised coefficient lists (outside the domain: oracle skips, model still mirrors). Non-trivial: some argument has degree >= 2 and none is zero; distinct = distinct (op,args)."
 
+def _c01_rule(op, args, impl):
+    # non-trivial: point arithmetic modulo n > 3; ecm / factorize on n > 3 (n <= 0 and 1, 2, 3 are the trivial ones)
+    try:
+        if op in ("ecm.add", "ecm.mul"):
+            return abs(int(args[3])) > 3
+        if op == "ecm.oneshot":
+            return abs(int(args[2])) > 3
+        if op in ("ecmp.simplify", "ecmp.adds", "ecmp.oneshot"):
+            return args[0] != "_" and abs(int(args[1])) > 3
+        if op in ("ecm.ecm", "ecmp.ecm", "ecm.factorize", "ecmp.factorize", "td.factorize", "selectb"):
+            return int(args[0]) > 3
+        if op == "rfactor":
+            return int(args[1]) > 3
+    except (ValueError, IndexError):
+        return False
+    return True
+
+
 INFO = {
+    "C01": {
+        "rule": "point add/mul, ecm_oneshot and the batched many_simplify/many_adds/ecm_oneshot_parallel on random curves and points (finite, infinite, equal, opposite, multiples of one another, un-normalised) modulo 53 moduli: small composites, primes, prime powers, products up to 2^92, B1 in 0..30 and at the u64 boundary; select_b on [-5, 1005] and on sizes up to 100000 bits; ecm / ecm_parallel::ecm on composites with B1 = select_b, small B1 and B1 = 0; the three factorize entry points on every n in [1, 3000] (thorough 10^5), n <= 0, prime powers up to 2^70, 2^a*m, Carmichael numbers, semiprimes, cubes and fifth powers of primes up to 2^32 (thorough 2^40), smooth x rough products, products of three primes, 2*p and p for Mersenne primes up to 2^607-1 (batched driver up to 2^127-1); scripted histories (first doubling not invertible, draws 1 and n-1, a batch whose curves fail at different primes so that gcd = n, singular curve modulo one factor, liar bases before a witness); every run's random history (curves, points and the Miller-Rabin bases drawn inside the drivers) is captured by the hook and replayed into the model, in a dev-profile and a release-profile build of the harness; with RFACTOR_BIN set, stdout of `rfactor n` / `rfactor --json n`. Non-trivial: n > 3; distinct = distinct (op,args incl. history).",
+        "rulefn": _c01_rule,
+        "release_pass": True,
+        "trusted": ["hooked RNG (feature verif-hooks), its Lean decoder (NTV.Draw) and the feature-guarded wrappers ecm::verif / ecm_parallel::verif",
+                    "reference primality for the oracle: trial division below 2^32, 12-base deterministic Miller-Rabin below 2^64, above that only the primes the harness built n from (Mersenne primes)",
+                    "select_b(n) for n > 1000 (floating point) is read from the implementation and handed to the model; (b1 as f64).sqrt() is modelled as the integer square root (exact below 2^52)"],
+        "gaps": ["termination of the curve loop is probabilistic (false for a constant stream): the theorems are partial correctness; every explored run terminated",
+                 "primality of the returned p rests on Miller-Rabin (C13): a history in which 20 bases are all strong liars makes the drivers return a composite 'prime', and (dev only) a history with a witness followed by 20 liars trips debug_assert!(!is_prime(n)) in ecm; probability <= 4^-20 per call; on every explored case each returned p is re-checked by the reference primality test",
+                 "select_b's float branch and the f64 square root are not modelled"],
+        "assumptions": ["n >= 1 (n <= 0 is the documented panic, checked by the correspondence)"],
+        "level_text": "Theorems about the Lean model of ecm.rs / ecm_parallel.rs / factorize.rs for every input, every sequence of random draws and both build profiles: any Err(d) of the point arithmetic, of ecm_oneshot and of its batched version divides n; ecm and ecm_parallel::ecm only return proper divisors; the work-stack drivers preserve the product (if they return, the product of the returned prime powers is x); dev profile: the stage-2 start exponents and ecm_oneshot never overflow for B1+1, B2+6 < 2^64; trial division is fully correct. Model tied to the code by replaying the captured random history of every run (dev and release builds); every implementation answer is re-checked by an independent oracle (strictly increasing, reference-prime, positive exponents, product n).",
+        "level_note": "Trusted: Lean kernel + 3 standard axioms; RNG hook + decoder; harness-supplied select_b for n > 1000. Partial: termination and primality of the returned factors are not theorems (probabilistic).",
+    },
     "C04": {
         "rule": _RES_GEN,
         "rulefn": _poly_pair_rule,
